@@ -7,6 +7,8 @@ def conditions(tier):
     cs = [dict(module=H, func="_fold3", cases=8 * 6, what="add_outgrads folded over 3 contributions: sparse/dense bits, aliasing pattern, symbolic values"),
           dict(module=H, func="_fold4", cases=16 * 24, what="fold over 4 contributions"),
           dict(module=H, func="_fold5", cases=32 * 120, what="fold over 5 contributions", timeout={"quick": 240, "thorough": 900}),
+          dict(module=H, func="_foldt3", cases=6, what="fold over 3 tuple-valued contributions (TupleVSpace), aliasing"),
+          dict(module=H, func="_foldt4", cases=24, what="fold over 4 tuple-valued contributions"),
           dict(module=H, func="_fold_reach", expect="counterexample", what="reachability twin"),
           dict(module=H, func="_alias3", cases=36 * 3, what="3-op programs whose rules return the incoming cotangent object; vjp called 3 times in symbolic order with two cotangents", timeout={"quick": 180, "thorough": 900}),
           dict(module=H, func="_alias3_planted", expect="counterexample", what="planted ownership bug (second contribution accumulated in place into the first)")]
